@@ -29,7 +29,7 @@ def canonical (u : String) : Except String (Option String) :=
   | none => .ok (some u)
   | some t =>
     if t = "real_space" then .ok (some (if u = "Angstrom" then "Å" else u))
-    else if t = "reciprocal_space" then .ok (some (if u = "Angstrom" then "1/Å" else u))
+    else if t = "reciprocal_space" then .ok (some (if u = "1/Angstrom" then "1/Å" else u))
     else if t = "angular" then .ok (some u)
     else .error "value_error"
 
@@ -64,8 +64,10 @@ def conversionFactor (pi : Rat) (units old : Option String) (wavelength : Option
       | some to =>
         let general : Except String Rat := do
           let vu ← validated (some u) (some o)
+          let vo ← validated (some o) none
           let fu ← factorOf pi vu
-          pure (directFactor fu 0)
+          let fo ← factorOf pi vo
+          pure (directFactor fu fo)
         if to = "reciprocal_space" then
           match unitsType u with
           | none => .error "key_error"
@@ -75,8 +77,10 @@ def conversionFactor (pi : Rat) (units old : Option String) (wavelength : Option
               | none => .error "runtime_error"
               | some w => do
                 let vu ← validated (some u) (some "mrad")
+                let vo ← validated (some o) none
                 let fu ← factorOf pi vu
-                pure (angularFactor w fu 0)
+                let fo ← factorOf pi vo
+                pure (angularFactor w fu fo)
             else general
         else general
 
